@@ -175,7 +175,7 @@ def main(tier, seed, replay=None):
         for (M, P) in combos if tier != "quick" else combos[: 2 + dof % 2]:
             k += 1
             sc = "f32" if k % 5 == 0 else "f64"
-            cases.append(statsrun.gen_stats_case(rng, M, P, M + P + dof, scalar=sc, weights=["none", "pos", "zeros"][k % 3] if dof > 2 else ["none", "pos"][k % 2], noise=0.1,
+            cases.append(statsrun.gen_stats_case(rng, M, P, M + P + dof, scalar=sc, weights=["none", "pos", "zeros", "neg"][k % 4] if dof > 2 else ["none", "pos", "neg"][k % 3], noise=0.1,
                                                  quant=(8 if k % 3 else None), probs=PROBS + BAD + (EDGE if sc == "f64" else [])))
     results, idx, hist, nerr = c13.run_stats_values(run, "C14", cases, binp, (20, 29, 30, 31), "confidence band")
     # many degrees of freedom (the quantile must still be Student's t with exactly N-M-P degrees of freedom): band relation only
@@ -218,6 +218,26 @@ def main(tier, seed, replay=None):
     for (c, pr), code in zip(bidx, bcodes):
         if code != 0:
             run.violation("band radius is not t * sigma_i (many degrees of freedom, p=%r, code %d)" % (pr, code), {"case": c})
+    # every successful fit must come with a finite, non-negative confidence sigma per sample (cases with non-finite statistics are
+    # not comparable in exact arithmetic and would otherwise drop out silently)
+    for c, r in zip(cases, results):
+        if not r.get("steps") or r["head"].get("build") != "ok" or not r["steps"][1]["v"].get("ok"):
+            continue
+        st = r["steps"][1]["v"]["stats"]
+        us = [unhx(h) for h in st["usigma"]]
+        if len(us) != c["meta"]["N"] or any((v != v) or v < 0 or v == float("inf") for v in us):
+            run.violation("confidence sigma sqrt(j_i^T Cov j_i) has a non-finite or negative entry / wrong length (weights: %s)" % c["meta"]["weights"],
+                          {"case": c, "usigma": st["usigma"]})
+            continue
+        for b, hp in zip(st["bands"], c["ops"][1][2]):
+            pv = unhx(hp)
+            if b.get("panic") or not (0 < pv < 1) or pv == 1 - 2.0 ** -53:
+                continue
+            rad = [unhx(h) for h in b["radius"]]
+            if any((v != v) or v < 0 or v == float("inf") for v in rad):
+                run.violation("band radius has a non-finite or negative entry for p = %r (weights: %s)" % (pv, c["meta"]["weights"]),
+                              {"case": c, "p": hp, "band": b})
+                break
     nband = band_argument_correspondence(run, binp, [(c, r) for c, r in zip(cases, results) if r.get("steps") and r["head"].get("build") == "ok"]
                                          + [(c, r) for c, r in zip(big, bres) if r.get("steps") and r["head"].get("build") == "ok"])
     ndof = {}
